@@ -23,7 +23,7 @@ use std::collections::{BTreeMap, BTreeSet};
 use std::panic::{catch_unwind, AssertUnwindSafe};
 
 pub type SimApp =
-    App<RecBank, MockApiBech32, SimStorage, RecCustom, WasmKeeper<SimMsg, SimQuery>, RecStaking, RecDistr, RecIbc, RecGov, RecStargate>;
+    App<RecBank, MockApiBech32, SimStorage, RecCustom, RecWasm, RecStaking, RecDistr, RecIbc, RecGov, RecStargate>;
 
 pub const PREFIXES: [&str; 4] = ["cosmwasm", "juno", "osmo", "x"];
 
@@ -54,7 +54,6 @@ pub struct Sim {
     /// addresses that ever received an external write or were bound to a slot
     pub touched: BTreeSet<String>,
     pub tree_sigs: Fnv,
-    pub any_fault: bool,
     /// digest of everything observed so far, recorded after every step (twin comparison)
     pub step_digs: Vec<u64>,
     /// handle on the repo's CachingCustomHandler state, when it is plugged in
@@ -188,6 +187,7 @@ impl Sim {
             .with_api(api)
             .with_storage(SimStorage::new())
             .with_bank(RecBank { inner: BankKeeper::new(), world: world.clone() })
+            .with_wasm(RecWasm { inner: WasmKeeper::new(), world: world.clone() })
             .with_custom(RecCustom { world: world.clone(), inner: custom_inner })
             .with_staking(RecStaking { inner: StakeKeeper::new(), world: world.clone() })
             .with_distribution(RecDistr { inner: DistributionKeeper::new(), world: world.clone() })
@@ -222,7 +222,6 @@ impl Sim {
             viol: vec![],
             touched: BTreeSet::new(),
             tree_sigs: Fnv::new(),
-            any_fault: false,
             step_digs: vec![],
             caching,
             custom_execs_seen: vec![],
@@ -594,7 +593,6 @@ impl Sim {
         }
         // every changed root key must be explained by a changed model entity
         let after = self.app.storage().snapshot();
-        let mut allowed: Vec<Vec<u8>> = vec![];
         let mut bank_changed: BTreeSet<&String> = BTreeSet::new();
         for (a, m) in &self.model.s.bank {
             if model_before.bank.get(a) != Some(m) {
@@ -643,7 +641,6 @@ impl Sim {
             if !ok {
                 unexplained.push(hex(k));
             }
-            allowed.push(k.clone());
         }
         unexplained.sort();
         unexplained.dedup();
@@ -752,9 +749,6 @@ impl Sim {
             self.stats.probe("multi_len_ge_2");
         }
         let ok = self.settle(&what, &before, real, |m| m.top_level(&sender_addr, &cmsgs), true, &[]);
-        if multi && self.model.faults.contains_key("multi_tail") {
-            self.stats.fault("multi_tail_failure");
-        }
         ok
     }
 
@@ -1014,6 +1008,9 @@ impl Sim {
             (RealOut::Err(e), Ok(exp)) => self.v(&["C11"], "code_id", format!("store_code failed ({}) expected id {}", e, exp)),
             (RealOut::Panic(p), _) => self.v(&["C11"], "panic", format!("store_code panicked: {}", p)),
         }
+        // the harness's own CodeInfo query went through the wasm recorder: not part of any step
+        let _ = self.world.take_module_calls();
+        self.world.0.borrow_mut().call_counts = self.model.call_counts.clone();
         self.viol.is_empty()
     }
 
@@ -1047,6 +1044,8 @@ impl Sim {
             (RealOut::Err(e), Some(_)) => self.v(&["C11"], "code_id", format!("duplicate_code({}) of a stored code failed: {}", id, e)),
             (RealOut::Panic(p), _) => self.v(&["C11"], "panic", format!("duplicate_code panicked: {}", p)),
         }
+        let _ = self.world.take_module_calls();
+        self.world.0.borrow_mut().call_counts = self.model.call_counts.clone();
         self.viol.is_empty()
     }
 
